@@ -17,4 +17,6 @@ pub mod c17;
 pub mod rx;
 pub mod life;
 pub mod sasl;
+pub mod hostile;
+pub mod e2e;
 pub mod sweeps;
